@@ -190,7 +190,7 @@ def jobs(tier, seed):
         out.append({"name": f"D{L}", "kind": "D", "len": L, "first": SYM_NAMES})
     for s in SYM_NAMES:
         out.append({"name": f"D5-{s}", "kind": "D", "len": 5, "first": [s]})
-    n, shards = (2400, 4) if tier == "quick" else (32000, 16)
+    n, shards = (2400, 4) if tier == "quick" else (128000, 16)
     if tier != "quick":
         for s in SYM_NAMES:
             out.append({"name": f"D6-{s}", "kind": "D", "len": 6, "first": [s]})
